@@ -593,7 +593,8 @@ pub fn parse_trace(text: &str) -> Vec<(ConcCase, Vec<usize>)> {
                 let ttl = u32::from_be_bytes([bytes[28], bytes[29], bytes[30], bytes[31]]);
                 let key = bytes[32..32 + keylen].to_vec();
                 let val = bytes[32 + keylen..].to_vec();
-                out.last_mut().unwrap().0.prelude.push(COp::Set(key, val, flags, ttl, 0));
+                let cas = u64::from_be_bytes([bytes[16], bytes[17], bytes[18], bytes[19], bytes[20], bytes[21], bytes[22], bytes[23]]);
+                out.last_mut().unwrap().0.prelude.push(COp::Set(key, val, flags, ttl, cas));
             }
             "T" => out.last_mut().unwrap().0.tick = p[1].parse().unwrap(),
             "TH" => {
@@ -657,8 +658,40 @@ pub fn witnesses() -> Vec<(ConcCase, Vec<usize>)> {
 /// Runs the witness cases (if asked) and generated cases; writes the trace for the
 /// model, the observations, and the monitor's findings (one line per case that no
 /// sequential order explains).
+/// fixed cases of the plain get / set / delete suites
+pub fn witnesses_base() -> Vec<(ConcCase, Vec<usize>)> {
+    let k = b"x".to_vec();
+    let f = b"f".to_vec();
+    let mut v = Vec::new();
+    // an expired, uncollected item whose CAS is the value the counter issues next (a
+    // conditional store to an absent key takes 'client CAS + 1', not a counter value); a
+    // retrieval reads the expired copy, a conditional store by another client replaces it and
+    // receives that same CAS again; then the retrieval collects: the store was acknowledged
+    // and nobody deleted the key
+    for split in 1..5usize {
+        let mut sched = vec![0; split];
+        sched.extend(vec![1; 8]);
+        sched.extend(vec![0; 8]);
+        v.push((
+            ConcCase {
+                id: format!("w-collect-vs-cas-store-same-cas-{}", split),
+                prelude: vec![
+                    COp::Set(f.clone(), b"1".to_vec(), 0, 0, 0),
+                    COp::Set(f.clone(), b"2".to_vec(), 0, 0, 0),
+                    COp::Set(f.clone(), b"3".to_vec(), 0, 0, 0),
+                    COp::Set(k.clone(), b"old".to_vec(), 7, 2, 3),
+                ],
+                tick: 5,
+                threads: vec![vec![COp::Get(k.clone())], vec![COp::Set(k.clone(), b"new".to_vec(), 1, 0, 4)]],
+            },
+            sched,
+        ));
+    }
+    v
+}
+
 pub fn run_gen(seed: u64, cases: usize, flavor: &str, trace: &mut String, obs: &mut String, monitor: &mut String) -> (u64, u64) {
-    let fixed: Vec<(ConcCase, Vec<usize>)> = if flavor == "rmw" { witnesses() } else { vec![] };
+    let fixed: Vec<(ConcCase, Vec<usize>)> = if flavor == "rmw" { witnesses() } else if flavor == "base" || flavor == "ttl" { witnesses_base() } else { vec![] };
     run_cases(seed, cases, flavor, fixed, trace, obs, monitor)
 }
 
@@ -688,8 +721,8 @@ pub fn run_cases(seed: u64, cases: usize, flavor: &str, fixed: Vec<(ConcCase, Ve
         let _ = writeln!(trace, "CASE {} 1048576 none", case.id);
         let _ = writeln!(obs, "CASE {}", case.id);
         for o in &case.prelude {
-            if let COp::Set(k, v, f, t, _) = o {
-                let req = crate::gen::set_like(opc::SETQ, k, v, *f, *t);
+            if let COp::Set(k, v, f, t, c) = o {
+                let req = crate::gen::set_like(opc::SETQ, k, v, *f, *t).cas(*c);
                 let _ = writeln!(trace, "C 0 {}", hex(&req.bytes()));
                 let _ = writeln!(obs, "S 0 0 0 0");
             }
